@@ -91,7 +91,7 @@ def check_type(rep, node, tier, idx):
         if not sampled and outcome == "ok":
             rep.sample({"type": node.label, "value": repr(v)[:60], "wire": exp[:24].hex()})
             sampled = True
-        rep.case((node.label, repr(v)), outcome=outcome, calls=2)
+        rep.case((node.label, repr(v)), outcome=(outcome + ":" + node.cls) if outcome == "ok" else outcome, calls=2)
 
 
 def pattern_set(width, tier):
